@@ -23,11 +23,13 @@ MODELS = {
          "delay": {"type": "fixed", "delay": "tau"}},
         {"reactants": ["Y"], "products": ["X"], "prop": {"type": "massaction", "k": "k2"}}],
         "params": {"k": 1.0, "k2": 0.5, "tau": 0.3}, "ic": {"X": 5, "Y": 1}},
-    "rules": {"species": ["X", "Y", "S"], "reactions": [
+    "rules": {"species": ["X", "Y", "S", "R", "Q"], "reactions": [
         {"reactants": ["X"], "products": ["Y"], "prop": {"type": "massaction", "k": "k"}},
         {"reactants": ["Y"], "products": ["X"], "prop": {"type": "massaction", "k": "k2"}}],
-        "params": {"k": 1.0, "k2": 0.5}, "ic": {"X": 5, "Y": 1, "S": 0},
-        "rules": [{"type": "additive", "attrs": {"equation": "S = X + Y"}}]},
+        "params": {"k": 1.0, "k2": 0.5}, "ic": {"X": 5, "Y": 1, "S": 0, "R": 0, "Q": 0},
+        # a repeated rule, a rule that reads the time, and a rule that fires at the start only
+        "rules": [{"type": "additive", "attrs": {"equation": "S = X + Y"}}, {"type": "assignment", "attrs": {"equation": "R = 5 + 2*t"}},
+                  {"type": "assignment", "attrs": {"equation": "Q = 7 + k"}, "frequency": "start"}]},
     "both": {"species": ["S", "X", "Y"], "reactions": [
         {"reactants": ["X"], "products": [], "dreactants": [], "dproducts": ["Y"], "prop": {"type": "massaction", "k": "k"},
          "delay": {"type": "gamma", "k": "gk", "theta": "gt"}},
